@@ -39,12 +39,16 @@ Skippable(cfg, d) == d < WMin(cfg) \/ d > cfg.max
 Frame(tree, path, eff, d) == [rest |-> SortedChildren(tree, eff), path |-> path, eff |-> eff, cd |-> d + 1]
 AncOf(st) == {st[i].eff : i \in DOMAIN st}
 
+\* the file system of the starting point: walkdir (and process_dir) look at what the starting point resolves to,
+\* also where the follow mode does not follow it (a link that is not followed has nothing beneath it anyway)
+RootFs(tree, root) == DevOf(tree, IF tree[root].kind = "l" /\ tree[root].target # 0 THEN tree[root].target ELSE root)
+
 \* process_dir on a yielded entry: evaluated if its depth is in range; -prune pops the iterator's top frame
 Evaluated(cfg, e) == e.depth >= cfg.min
 PruneFires(tree, cfg, e, root) ==
   /\ Evaluated(cfg, e) /\ ~cfg.depth /\ e.dir /\ e.path \in cfg.prune
   \* (the -xdev repair: only for a directory the iterator did descend into)
-  /\ (Xdev(cfg) => DevOf(tree, e.eff) = DevOf(tree, root))
+  /\ (Xdev(cfg) => DevOf(tree, e.eff) = RootFs(tree, root))
 
 (***************************************************************************)
 (* handle_entry for the directory entry `node` met at `depth` under `path`. *)
@@ -62,7 +66,7 @@ Handle(tree, cfg, path, node, depth, anc, root) ==
       normalDir == (nd.kind = "d") \/ (wdFollowed /\ isDir)
       loop == wdFollowed /\ isDir /\ eff \in anc
       cannotOpen == wdFollowed /\ isDir /\ Unreadable(tree[eff])
-      sameFs == ~Xdev(cfg) \/ depth = 0 \/ DevOf(tree, eff) = DevOf(tree, root)
+      sameFs == ~Xdev(cfg) \/ depth = 0 \/ DevOf(tree, eff) = RootFs(tree, root)
       push == IF normalDir THEN sameFs
               ELSE depth = 0 /\ nd.kind = "l" /\ FollowRoot(cfg) /\ isDir       \* the root-link special case
       e == [path |-> path, depth |-> depth, node |-> node, eff |-> eff, dir |-> isDir]
